@@ -1295,6 +1295,14 @@ int32 matrixClearSession(ssl_t *ssl, int32 remove)
     {
         return PS_ARG_FAIL;
     }
+#  ifdef USE_STATELESS_SESSION_TICKETS
+    if (ssl->sid && ssl->sid->sessionTicketState == SESS_TICKET_STATE_USING_TICKET)
+    {
+        /* Resumed from a ticket: sessionId is the client's own value, echoed
+            per RFC 5077 3.4.  It does not name a cache entry of ours */
+        return PS_ARG_FAIL;
+    }
+#  endif
     id = ssl->sessionId;
 
     i = ((uint32) id[3] << 24) + ((uint32) id[2] << 16) + ((uint32) id[1] << 8) + id[0];
@@ -1422,6 +1430,21 @@ int32 matrixUpdateSession(ssl_t *ssl)
         /* No table entry.  matrixRegisterSession was full of inUse entries */
         return PS_LIMIT_FAIL;
     }
+#  ifdef USE_STATELESS_SESSION_TICKETS
+    if (ssl->sid && ssl->sid->sessionTicketState == SESS_TICKET_STATE_USING_TICKET)
+    {
+        /* Resumed from a ticket: sessionId is the client's own value, echoed
+            per RFC 5077 3.4.  It does not name a cache entry of ours */
+        return PS_ARG_FAIL;
+    }
+#  endif
+#  ifdef USE_TLS_1_3
+    if (NGTD_VER(ssl, v_tls_1_3_any))
+    {
+        /* sessionId is the client's legacy_session_id echo, not a cache id */
+        return PS_ARG_FAIL;
+    }
+#  endif
     id = ssl->sessionId;
     i = ((uint32) id[3] << 24) + ((uint32) id[2] << 16) + ((uint32) id[1] << 8) + id[0];
     if (i >= SSL_SESSION_TABLE_SIZE)
@@ -1438,8 +1461,16 @@ int32 matrixUpdateSession(ssl_t *ssl)
         /* End of the line */
         DLListInsertTail(&g_sessionChronList, &g_sessionTable[i].chronList);
     }
+    if (Memcmp(g_sessionTable[i].id, id, SSL_MAX_SESSION_ID_SIZE) != 0)
+    {
+        /* The entry was invalidated (or re-used) in the meantime: never
+            re-publish it from this connection's state */
+        psUnlockMutex(&g_sessionTableLock);
+        return PS_FAILURE;
+    }
     if (ssl->flags & SSL_FLAGS_ERROR)
     {
+        Memset(g_sessionTable[i].id + 4, 0x0, SSL_MAX_SESSION_ID_SIZE - 4);
         Memset(g_sessionTable[i].masterSecret, 0x0, SSL_HS_MASTER_SIZE);
         g_sessionTable[i].cipher = NULL;
         psUnlockMutex(&g_sessionTableLock);
